@@ -10,6 +10,8 @@ mkdir -p out; : > out/regress.txt
 for d in seeded/*/; do
   d=${d%/}
   [ -f "$d/patch.diff" ] || continue
+  # REGRESS_DIRS (regex on the directory name) and REGRESS_CHECK (a check id) restrict the run
+  if [ -n "$REGRESS_DIRS" ] && ! echo "$(basename $d)" | grep -Eq "$REGRESS_DIRS"; then continue; fi
   checks=$(python3 -c "
 import json,re,sys
 m=json.load(open('$d/meta.json'))
@@ -20,6 +22,7 @@ seen=[]
 for c in cs:
     if c not in seen: seen.append(c)
 print(' '.join(seen[:2]))")
+  if [ -n "$REGRESS_CHECK" ]; then case " $checks " in *" $REGRESS_CHECK "*) checks=$REGRESS_CHECK;; *) continue;; esac; fi
   git -C "$R" checkout -q -- . ; git -C "$R" apply "$ROOT/$d/patch.diff" || { echo "$(basename $d) PATCH-FAILS" >> out/regress.txt; continue; }
   line="$(basename $d):"
   for c in $checks; do
